@@ -567,4 +567,5 @@ PROPS["C11"]["parts"] = [
     dict(_TWO, args=["--prop", "C11"]),
 ]
 PROPS["C11"]["level_text"] += " A second part runs the succession cells of the two-client harness: a first client negotiates on a clean path and dies, and the client under test then negotiates through a case-folding relay in the slot the first one left behind; what it settled on must carry its packets."
+PROPS["C01"]["level_text"] += " The grid also has IPv6-transport cells (NULL/TXT/MX/CNAME/A in DNS mode, lazy and immediate, and raw UDP mode; the server listens on both families), in the clean-path set, in the single-deviation set and for two clients."
 
